@@ -34,6 +34,8 @@ var specimens = []specimen{
 	{"str-cjk", "中文字", []ruleV{{"to=3~3", false}, {"eq=3", false}, {"gt=3", true}, {"le=2", true}, {"prefix=中", false}, {"eq=9", true}}},
 	{"str-mail", "a@b.cn", []ruleV{{"email", false}, {"phone", true}, {"include=(@)", false}, {"lt=6", true}}},
 	{"str-blanks", " ab ", []ruleV{{"eq=4", false}, {"eq=2", true}, {"to=4~4", false}, {"to=1~3", true}, {"le=3", true}, {"ge=4", false}, {"lt=4", true}, {"noeq=4", true}}},
+	{"str-space", "a b", []ruleV{{"in=(a b)", false}, {"in=(a+b)", true}, {"include=( )", false}, {"include=(+)", true}, {"prefix='a '", false},
+		{"suffix=' b'", false}, {"eq=3", false}, {"le=2", true}, {"in=(a%20b)", true}}},
 	{"str-plus", "a+b", []ruleV{{"eq=3", false}, {"in=(a+b)", false}, {"in=(a b)", true}, {"le=2", true}, {"include=(+)", false}}},
 	{"str-pct", "%41x", []ruleV{{"eq=4", false}, {"eq=2", true}, {"prefix=%", false}, {"in=(Ax)", true}, {"ge=4", false}}},
 	{"str-emoji", "a😀b", []ruleV{{"eq=3", false}, {"eq=6", true}, {"le=2", true}, {"to=3~3", false}, {"gt=3", true}}},
@@ -210,7 +212,7 @@ func (g *wgen) buildStruct(depth int, structName string) built {
 			g.feat["time-pointer-field"] = true
 		default: // nested: struct / pointer(s) / slice / array / map, marked or decoy
 			childName := structName + "." + name // the walker passes structName + "." + fieldName
-			mode := g.r.Intn(7) // 0 required 1 exist 2 decoy-none 3 decoy-other-rule 4.. required/exist
+			mode := g.r.Intn(7)                  // 0 required 1 exist 2 decoy-none 3 decoy-other-rule 4.. required/exist
 			tagRule := ""
 			marked := true
 			var m string
